@@ -140,12 +140,27 @@ CHECKS = {
         "Trusted: the predicate. Refusal = any exception.",
         "DESIGN.md 4/C17",
     ),
+    "C18": (
+        "Hypothesis call sequences on shared argument objects; deep snapshots before/after every call + fresh-object differential",
+        "Generated-history search: sequences of up to 3 calls (with repetition, Grid re-construction interleaved) that share the "
+        "same argument objects; every object reachable from the arguments, the dataset and the Grid is snapshotted before and "
+        "after each call; the k-th outcome is compared with the same call run first on fresh objects.",
+        "Trusted: the snapshot covers what the statement lists (values, dims, coords, attrs, name, dict keys and value identities, Grid settings).",
+        "DESIGN.md 4/C18",
+    ),
     "C19": (
         "Hypothesis-generated coordinate-laden datasets x ops vs coordinate model from the statement",
         "Generated-input search over datasets with 0-D/1-D/N-D coordinates, missing dimension coordinates, (mis)labelled inputs, "
         "all shifts incl. unpadded and cumsum paths, keep_coords; oracle lists which coordinates the result must and must not carry.",
         "Trusted: xarray's own coordinate bookkeeping when building the inputs.",
         "DESIGN.md 4/C19",
+    ),
+    "C20": (
+        "valid calls of the shared corpus x every applicable ill-posing edit; oracle: raises, never returns",
+        "Generated-input search over (valid call, single ill-posing edit) pairs from 22 edit classes; the unedited call is run "
+        "first and must return, so the edit is the cause of the refusal; any returned object is a violation.",
+        "Trusted: the edit classes as read from the statement; boundary/fill edits are only asserted where the call must pad that axis.",
+        "DESIGN.md 4/C20",
     ),
 }
 
